@@ -5,6 +5,7 @@
    of the reference that rebuilds the object from its primary data (through the constructor) before every operation. *)
 From Coq Require Import List ZArith Bool Arith.
 From CR Require Import Base.G5Machine Model.Caches Proofs.Caches Corr.C11 Proofs.CachesEx.
+From CR Require Model.CacheTable Gen.Src_cachetable Proofs.SrcCacheTable.
 Import ListNotations.
 Open Scope Z_scope.
 
@@ -124,6 +125,23 @@ Example C11_member_move_outside_domain :
   ~ NCoh TokW (fst (nstep TokW n0 (NLanelet TokW 0 (LMove TokW 5)))).
 Proof. exact member_move_breaks. Qed.
 
+(* ---- the invalidation logic of the setters is the source's: the effects the vertex setters of Lanelet, the trajectory /
+   shape setters of TrajectoryPrediction and the initial_state / obstacle_shape setters of Obstacle have on the derived
+   attributes are parsed from the source on every run (Gen/Src_cachetable.v); see Props/C06.v for the statement. *)
+Theorem C11_lanelet_setters_are_source : SrcCacheTable.class_statement Src_cachetable.src_lanelet_caches Src_cachetable.src_lanelet_deps Src_cachetable.src_lanelet_setters.
+Proof. exact SrcCacheTable.src_lanelet_coherent. Qed.
+Theorem C11_trajectory_prediction_setters_are_source : SrcCacheTable.class_statement Src_cachetable.src_trajectory_prediction_caches Src_cachetable.src_trajectory_prediction_deps Src_cachetable.src_trajectory_prediction_setters.
+Proof. exact SrcCacheTable.src_trajectory_prediction_coherent. Qed.
+Theorem C11_obstacle_setters_are_source : SrcCacheTable.class_statement Src_cachetable.src_obstacle_caches Src_cachetable.src_obstacle_deps Src_cachetable.src_obstacle_setters.
+Proof. exact SrcCacheTable.src_obstacle_coherent. Qed.
+Example C11_setter_tables_nonvacuous :
+  (length Src_cachetable.src_lanelet_setters = 3 /\ length Src_cachetable.src_trajectory_prediction_setters = 2 /\
+   length Src_cachetable.src_obstacle_setters = 2)%nat /\
+  CacheTable.setter_ok Src_cachetable.src_lanelet_caches Src_cachetable.src_lanelet_deps {| CacheTable.s_attr := 1%nat; CacheTable.s_main := [CacheTable.EStore; CacheTable.EDrop 1%nat; CacheTable.ERebuild 2%nat]; CacheTable.s_tail := [] |} = false /\
+  CacheTable.setter_ok Src_cachetable.src_trajectory_prediction_caches Src_cachetable.src_trajectory_prediction_deps
+    {| CacheTable.s_attr := 1%nat; CacheTable.s_main := []; CacheTable.s_tail := [CacheTable.EStore; CacheTable.EDrop 0%nat] |} = false.
+Proof. vm_compute. repeat split; reflexivity. Qed.
+
 Print Assumptions C11_pred_coh_reachable.
 Print Assumptions C11_obstacle_coh_reachable.
 Print Assumptions C11_lanelet_coh_reachable.
@@ -150,3 +168,7 @@ Print Assumptions C11_unrepaired_prediction_refuted.
 Print Assumptions C11_unrepaired_network_refuted.
 Print Assumptions C11_member_move_outside_domain.
 Print Assumptions C11_lanelet_vertex_setters.
+Print Assumptions C11_lanelet_setters_are_source.
+Print Assumptions C11_trajectory_prediction_setters_are_source.
+Print Assumptions C11_obstacle_setters_are_source.
+Print Assumptions C11_setter_tables_nonvacuous.
